@@ -477,9 +477,9 @@ pub enum Val {
 
 pub fn val_strategy() -> impl Strategy<Value = Val> {
     prop_oneof![
-        5 => (any::<bool>(), any::<u8>()).prop_map(|(var, salt)| Val::Good { var, salt }),
-        3 => pkind_strategy().prop_map(Val::Var),
-        2 => pkind_strategy().prop_map(Val::Lit),
+        10 => (any::<bool>(), any::<u8>()).prop_map(|(var, salt)| Val::Good { var, salt }),
+        2 => pkind_strategy().prop_map(Val::Var),
+        1 => pkind_strategy().prop_map(Val::Lit),
     ]
 }
 
@@ -696,7 +696,7 @@ fn qparam_strategy() -> impl Strategy<Value = QParam> {
         3 => prop::collection::vec((any::<u16>(), any::<bool>()), 1..3).prop_map(QParam::OrderBy),
         2 => lim_strategy().prop_map(QParam::First),
         1 => lim_strategy().prop_map(QParam::Skip),
-        2 => (any::<bool>(), prop::collection::vec(val_strategy(), 1..3)).prop_map(|(before, vals)| QParam::Paging { before, vals }),
+        1 => (any::<bool>(), prop::collection::vec(val_strategy(), 1..3)).prop_map(|(before, vals)| QParam::Paging { before, vals }),
         1 => val_strategy().prop_map(QParam::Search),
         1 => prop::collection::vec(any::<u16>(), 1..3).prop_map(QParam::Nullable),
     ]
@@ -713,7 +713,7 @@ fn qfield_strategy(depth: u32) -> BoxedStrategy<QField> {
             any::<u16>(),
             prop::option::weighted(0.4, ident_strategy(true)),
             prop::collection::vec(qparam_strategy(), 0..3),
-            prop::collection::vec(qfield_strategy(depth - 1), 0..4),
+            prop_oneof![1 => Just(Vec::new()).boxed(), 12 => prop::collection::vec(qfield_strategy(depth - 1), 1..4).boxed()],
         )
             .prop_map(|(field, alias, params, fields)| QField::Sub { field, alias, params, fields });
         prop_oneof![6 => scalar, 1 => func, 2 => json, 3 => sub].boxed()
@@ -725,7 +725,7 @@ pub fn query_strategy() -> impl Strategy<Value = QueryReq> {
         prop::option::weighted(0.4, ident_strategy(true)),
         any::<u16>(),
         prop::collection::vec(qparam_strategy(), 0..4),
-        prop::collection::vec(qfield_strategy(2), 0..6),
+        prop_oneof![1 => Just(Vec::new()).boxed(), 15 => prop::collection::vec(qfield_strategy(2), 1..6).boxed()],
     )
         .prop_map(|(alias, ent, params, fields)| QEnt { alias, ent, params, fields });
     (prop::option::weighted(0.2, ident_strategy(true)), prop::collection::vec(ent, 1..3)).prop_map(|(name, ents)| QueryReq { name, ents })
@@ -1028,7 +1028,7 @@ impl<'a> Ctx<'a> {
                 QParam::JsonFilter { field, sel, op, val } => {
                     let jsons: Vec<&RField> = ent.fields.iter().filter(|f| f.ty == Ty::Json).collect();
                     let f = if jsons.is_empty() {
-                        if ent.fields.is_empty() {
+                        if ent.fields.is_empty() || sel % 6 != 0 {
                             continue;
                         }
                         &ent.fields[pick(*field, ent.fields.len())]
@@ -1168,6 +1168,9 @@ impl<'a> Ctx<'a> {
                 }
                 QField::Json { alias, field, sel } => {
                     let jsons: Vec<&&RField> = scalars.iter().filter(|f| f.ty == Ty::Json).collect();
+                    if jsons.is_empty() && sel % 6 != 0 {
+                        continue;
+                    }
                     let (fname, has_default) = if jsons.is_empty() {
                         if scalars.is_empty() {
                             ("id".to_string(), false)
